@@ -271,3 +271,59 @@ def translate_prefix(fn, lean_name, doc):
         return Prefix(fn).lean(lean_name, doc)
     except Unsupported as e:
         return '/-- %s — NOT TRANSLATED (%s) -/\ndef %s : Int := 0\n' % (doc, str(e).replace('-/', ''), lean_name)
+
+
+# =================================================================================================
+# Channel arithmetic of `_AnsiControlFn.rgb`: the branch that splits one 24-bit value (natural numbers,
+# `&` and `>>`) and the branch that clamps three components (integers, `min`/`max`).
+
+def _nat_ex(e, env):
+    if isinstance(e, ast.Constant) and isinstance(e.value, int) and not isinstance(e.value, bool) and e.value >= 0:
+        return '(%d : Nat)' % e.value
+    if isinstance(e, ast.Name) and e.id in env:
+        return mangle(e.id)
+    if isinstance(e, ast.BinOp) and isinstance(e.op, (ast.BitAnd, ast.RShift, ast.LShift, ast.BitOr, ast.Add, ast.Mult, ast.FloorDiv, ast.Mod)):
+        op = {ast.BitAnd: '&&&', ast.RShift: '>>>', ast.LShift: '<<<', ast.BitOr: '|||', ast.Add: '+', ast.Mult: '*', ast.FloorDiv: '/', ast.Mod: '%'}[type(e.op)]
+        return '(%s %s %s)' % (_nat_ex(e.left, env), op, _nat_ex(e.right, env))
+    raise Unsupported(ast.unparse(e))
+
+
+def translate_rgb(fn):
+    """-> Lean source for Gen.rgbSplit (Nat -> Nat × Nat × Nat) and Gen.rgbClamp (Int -> Int -> Int -> Int × Int × Int)"""
+    def find(fn):
+        for n in ast.walk(fn):
+            if isinstance(n, ast.If):
+                for cand in (n.body, n.orelse):
+                    tg = [s.targets[0].id for s in cand if isinstance(s, ast.Assign) and len(s.targets) == 1 and isinstance(s.targets[0], ast.Name)]
+                    if tg[-3:] == ['r', 'g', 'b']:
+                        yield [s for s in cand if isinstance(s, ast.Assign)][-3:]
+    out = []
+    ok = True
+    try:
+        branches = list(find(fn))
+        params = [a.arg for a in fn.args.args]
+        first = params[0]
+        split = [b for b in branches if any(isinstance(m, (ast.BitAnd, ast.RShift)) for s in b for m in ast.walk(s))]
+        clamp = [b for b in branches if b not in split]
+        if len(split) != 1 or len(clamp) != 1:
+            raise Unsupported('branches')
+        env = {first: 'nat'}
+        exprs = []
+        for s_ in split[0]:
+            exprs.append(_nat_ex(s_.value, env))
+        out.append('/-- `_AnsiControlFn.rgb` with one value: `r, g, b` from the 24-bit value (statements translated as they are) -/\n'
+                   'def rgbSplit (%s : Nat) : Nat × Nat × Nat :=\n  (%s, %s, %s)\n' % (mangle(first), exprs[0], exprs[1], exprs[2]))
+        f = Fn.__new__(Fn)
+        f.params = ['r_or_rgb', 'g', 'b']; f.optional = set()
+        envi = {first: 'int', 'g': 'int', 'b': 'int'}
+        lets = []
+        for s_ in clamp[0]:
+            v = s_.targets[0].id
+            lets.append('  let %s : Int := %s' % (mangle(v) + "'", f.ex(s_.value, envi)))
+        out.append("/-- `_AnsiControlFn.rgb` with three values: each component clamped (statements translated as they are) -/\n"
+                   "def rgbClamp (%s : Int) (g : Int) (b : Int) : Int × Int × Int :=\n%s\n  (r', g', b')\n" % (mangle(first), '\n'.join(lets)))
+    except (Unsupported, IndexError) as e:
+        ok = False
+        out = ['def rgbSplit (_v : Nat) : Nat × Nat × Nat := (0, 0, 0)\ndef rgbClamp (_r _g _b : Int) : Int × Int × Int := (0, 0, 0)\n']
+    out.append('def rgbChannelsOk : Bool := %s\n' % ('true' if ok else 'false'))
+    return '\n'.join(out)
